@@ -75,7 +75,7 @@ func (o op) coq() string {
 		return "ExtReq true"
 	case "extdec":
 		return "ExtReq false"
-	case "dup", "resprace":
+	case "dup", "resprace", "sendclose":
 		return "ExtReq false" // never used: histories with this op are finder-only (noModel)
 	}
 	panic("op " + o.K)
@@ -167,7 +167,7 @@ func (w *world) enabled(full bool) []op {
 func (w *world) apply(o op) int {
 	// a scripted op whose stream / connection does not exist (an earlier step of the script was refused) is skipped
 	switch o.K {
-	case "send", "resp", "respclose", "respdup", "resprace", "lreset", "rreset", "lresetrace", "rresetrace", "respcloserace":
+	case "send", "sendclose", "resp", "respclose", "respdup", "resprace", "lreset", "rreset", "lresetrace", "rresetrace", "respcloserace":
 		if o.A >= len(w.leases) {
 			return resNone
 		}
@@ -258,6 +258,16 @@ func (w *world) apply(o op) int {
 		} else {
 			w.noModel = true
 		}
+	case "sendclose":
+		l := w.leases[o.A]
+		if w.sendCloseRace(l) {
+			w.lastCoq = []string{fmt.Sprintf("Send %d", o.A), fmt.Sprintf("ConnClose %d EvLocal", l.cli)}
+			if l.live() {
+				w.stuck = append(w.stuck, fmt.Sprintf("stream %d: its request was written, its connection %d closed before the response reader picked the request up (close event handled by every listener), and the stream was never reset", l.idx, l.cli))
+			}
+		} else {
+			w.noModel = true
+		}
 	case "send":
 		w.send(w.leases[o.A])
 	case "resp":
@@ -331,6 +341,10 @@ func (w *world) check(fs *finderState, o op, ob obs) []finding {
 		add("dirty-connection-leased-during-close", w.raceFinding)
 		w.raceFinding = ""
 	}
+	for _, st := range w.stuck {
+		add("stream-never-reset:close-between-write-and-pickup", st)
+	}
+	w.stuck = nil
 
 	liveOn := map[int]int{}
 	nlive := 0
@@ -783,6 +797,19 @@ func c09(args []string) int {
 				jobs = append(jobs, func() {
 					h := runOps(kind, mc, 0, script, true)
 					h.family = "late-response"
+					collect(h)
+				})
+			}
+		}
+	}
+	// family "send-close": the connection closes exactly between the write of a request and its pick-up by the response reader
+	for _, kind := range []poolKind{kHTTP1, kPingPong} {
+		for _, mc := range []uint64{0, 2} {
+			for rep := 0; rep < run.N(6, 30); rep++ {
+				kind, mc := kind, mc
+				jobs = append(jobs, func() {
+					h := runOps(kind, mc, 0, []op{{K: "newnosend"}, {"sendclose", 0}, {K: "new"}, {"resp", 1}, {K: "newnosend"}, {K: "newnosend"}, {"sendclose", 3}, {"sendclose", 2}, {K: "new"}, {"resp", 4}}, true)
+					h.family = "send-close"
 					collect(h)
 				})
 			}
